@@ -90,8 +90,10 @@ def run_case(case, semi_layout=None):
             f.fit(A[L].copy(), Y[L].copy(), A[U].copy())
             p.fit(A[L].copy(), Y[L].copy(), A[U].copy(), np.asarray(L))
             if node_state(f) != node_state(p):
-                return {"error": "semi-supervised forests differ between on-the-fly and pre-computed distances",
-                        "signature": "semi:positional-idx", "props": ["C10"]}
+                res = {"error": "semi-supervised forests differ between on-the-fly and pre-computed distances", "props": ["C10"]}
+                if semi_layout != "contiguous":
+                    res["signature"] = "semi:positional-idx"
+                return res
         return None
     finally:
         try:
